@@ -204,7 +204,7 @@ def standin_search(prop, repo, tier="quick", seed=0):
                 if found is None:
                     found = (path, oid)
             elif r.returncode == 0 and lines and lines[-1].startswith("NOTFOUND"):
-                results.append(dict(b, status="no failing input", cases=int(lines[-1].split()[1]), bound_note="the family grew with every round of seeded changes: `cases` is the number of cases actually run now; the breakdown in `bound` is the family's original composition", mode=mode + (" (thorough tier: the families c03 c06 c10 c11 c12 c19 add 200-600 seeded random token-alphabet texts, a third of them with one byte deleted/replaced/truncated)" if tier == "thorough" else " (quick tier: a quarter of the thorough tier's seeded random texts)")))
+                results.append(dict(b, status="no failing input", cases=int(lines[-1].split()[1]), bound_note="the family grew with every round of seeded changes: `cases` is the number of cases actually run now; the breakdown in `bound` is the family's original composition", mode=mode + (" (thorough tier: the families c03 c06 c10 c11 c12 c19 add 4000-12000 seeded random token-alphabet texts - twenty times the nominal 200-600 -, a third of them with one byte deleted/replaced/truncated; c05 adds 320 x 400 random decimal literals)" if tier == "thorough" else " (quick tier: a quarter of the nominal 200-600 seeded random texts; c05: 4 x 400 random decimal literals)")))
             else:
                 results.append(dict(b, status="stand-in did not run: rc=%s %s" % (r.returncode, (r.stderr or r.stdout)[-200:])))
     return results, found
